@@ -258,16 +258,17 @@ Qed.
 
 (** A REP number accepted by the commit (<= 255, possibly negative as far
     as the VM is concerned) is stored in at most 32 bytes. *)
-Lemma int_to_bytes_small_len r : -2 ^ 255 <= r <= 255 -> (length (int_to_bytes r) <= 32)%nat.
+Lemma int_to_bytes_small_len r : - (2 ^ 255) <= r <= 255 -> (length (int_to_bytes r) <= 32)%nat.
 Proof.
   intros Hr. unfold int_to_bytes. rewrite length_le_bytes.
-  destruct (Z.eq_dec r 0) as [->|Hz]; [simpl; lia|].
+  destruct (Z.eq_dec r 0) as [->|Hz]; [vm_compute; lia|].
   unfold int_nbytes. rewrite (proj2 (Z.eqb_neq r 0) Hz).
   set (m := if r <? 0 then - r - 1 else r).
-  assert (Hm : 0 <= m < 2 ^ 255) by (unfold m; destruct (Z.ltb_spec r 0); lia).
+  assert (HB : 256 <= 2 ^ 255) by (vm_compute; discriminate).
+  assert (Hm : 0 <= m < 2 ^ 255). { unfold m. destruct (Z.ltb_spec r 0); lia. }
   assert (Z.log2 m < 255).
-  { destruct (Z.eq_dec m 0) as [->|]; [simpl; lia|]. apply Z.log2_lt_pow2; lia. }
+  { destruct (Z.eq_dec m 0) as [->|]; [simpl; lia|]. apply Z.log2_lt_pow2; [lia|apply Hm]. }
   pose proof (Z.log2_nonneg m).
-  assert ((Z.log2 m + 1) / 8 <= 31) by (apply Z.div_le_upper_bound; lia).
+  assert ((Z.log2 m + 1) / 8 < 32) by (apply Z.div_lt_upper_bound; lia).
   pose proof (Z.div_pos (Z.log2 m + 1) 8 ltac:(lia) ltac:(lia)). lia.
 Qed.
